@@ -199,7 +199,7 @@ class RefSim final : public Engine {
 public:
   const char* Name() const override { return "refsim"; }
   std::vector<std::string> Properties() const override { return { "C17", "C04" }; }
-  uint64_t DefaultRuns(const std::string& focus, bool thorough) const override { return focus == "C04" ? (thorough ? 200000 : 8000) : (thorough ? 400000 : 16000); }
+  uint64_t DefaultRuns(const std::string& focus, bool thorough) const override { return focus == "C04" ? (thorough ? 1500000 : 60000) : (thorough ? 3000000 : 120000); }
   Cfg GenCfg(Rng& r, const std::string&, bool) override {
     Cfg c; c["steps"] = r.Range(6, 50);
     c["p_wild"] = r.Pct(40) ? 0 : r.Range(3, 12);
